@@ -215,4 +215,12 @@ def explore(ctx):
         'stage_split_oracle_checked': oracle_checked,
         'model_vs_impl_disagreements': sum(1 for r in results if r['corr']),
     }
+    # the same on a live terminal, where every refresh re-runs the chain on the first aggregation's CURRENT table:
+    # a second aggregation must aggregate exactly those rows (no group of an earlier refresh may linger)
+    from props import c16
+    live = c16.run_live(ctx, c16.CHAINED, 10 if quick else 150)
+    failures += live['failures']
+    cov['live_terminal_cases'] = live['coverage']['evaluations']
+    cov['evaluations'] += live['coverage']['evaluations']
+    cov['rule'] += '; chained aggregations (with a filter in between) on a live terminal with timed input bursts, final and idle-checkpoint screens against the non-terminal result'
     return {'coverage': cov, 'failures': failures}
